@@ -170,7 +170,30 @@ def builder_guards(P, R, xq, b):
             out.append(('pw', op == '!='))
         return out
 
+    tnames = {c['v']: c['name'] for c in P.enums.get('iauth_xquery_type', [])}
+
     def on_edge(st, e):
+        if e.label in ('case', 'default') and e.cond is not None and is_field(e.cond, 'type'):
+            d = dict(st)
+            if e.label == 'case':
+                names = {tnames.get(v, str(v)) for v in (e.vs or [])}
+            else:
+                names = set(tnames.values()) - {tnames.get(v, str(v)) for v in (e.notin or [])}
+            known = [k[5:] for k, v in d.items() if k.startswith('type:') and v]
+            if known and known[0] not in names:
+                return None
+            names -= {k[5:] for k, v in d.items() if k.startswith('type:') and v is False}
+            if 'typeset' in d:
+                names &= set(d['typeset'])
+            if not names:
+                return None
+            d['typeset'] = tuple(sorted(names))
+            if len(names) == 1:
+                d['type:' + list(names)[0]] = True
+            d['notdrone'] = 'DRONECHECK' not in names if 'DRONECHECK' not in names else d.get('notdrone')
+            if d['notdrone'] is None:
+                d.pop('notdrone')
+            return tuple(sorted(d.items()))
         r = rules.edge_rel(e)
         if not r:
             return st
@@ -220,7 +243,7 @@ def builder_guards(P, R, xq, b):
         if fmt.startswith('LOGIN'):
             R.ob('C06.GRD.1', allp(lambda d: d.get('pw')), s, '%s query only with a stored password' % fmt.split()[0], key='q:%s:pw' % fmt.split()[0])
             want = {'LOGIN': {'LOGIN', 'COMBINED'}, 'LOGIN2': {'LOGIN_IPR'}}[fmt.split()[0]]
-            R.ob('C06.GRD.1', allp(lambda d: any(d.get('type:' + t) for t in want)), s, '%s line only to protocols %s' % (fmt.split()[0], sorted(want)), key='q:%s:proto' % fmt.split()[0])
+            R.ob('C06.GRD.1', allp(lambda d: any(d.get('type:' + t) for t in want) or (d.get('typeset') and set(d['typeset']) <= want)), s, '%s line only to protocols %s' % (fmt.split()[0], sorted(want)), key='q:%s:proto' % fmt.split()[0])
         if fmt.startswith('CHECK'):
             R.ob('C06.GRD.1', allp(lambda d: d.get('type:DRONECHECK') or d.get('type:COMBINED')), s, 'CHECK line only to dronecheck/combined services', key='q:CHECK:proto')
     R.floor('C06.GRD.1', 12)
@@ -332,6 +355,154 @@ def wiring(P, R, xq, b):
     R.floor('C06.WIRE.1', 20)
 
 
+def username_content(P, b, sends):
+    """What the local user-name buffer holds when a query is sent, on every path: tracked as a sequence of pieces
+    ('~', 'ident', 'claimed') next to the facts "there is an ident", "the claimed name starts with ~", "there is a
+    claimed name"; the source may be selected through a local pointer and the offset through a local counter.
+    Returns {send site key: (ok, description)} for the buffers passed to those sends."""
+    USER_FIELDS = ('auth_username', 'cli_username')
+
+    def fld0(l):
+        if isinstance(l, dict) and l.get('k') == 'idx' and const_of(l.get('index')) == 0:
+            for f in USER_FIELDS:
+                if is_field(l['base'], f, core.REQ_REC):
+                    return f
+        return None
+
+    def classify(r):
+        l, op, rr = r
+        f = fld0(l)
+        c = const_of(rr)
+        out = []
+        if f == 'auth_username' and c == 0 and op in ('==', '!='):
+            out.append(('A', op == '!='))
+        if f == 'cli_username' and c == 0 and op in ('==', '!='):
+            out.append(('N', op == '!='))
+            if op == '==':
+                out.append(('T', False))
+        if f == 'cli_username' and c == ord('~') and op in ('==', '!='):
+            out.append(('T', op == '=='))
+            if op == '==':
+                out.append(('N', True))
+        # the plain login protocol needs no user name: the buffer may legitimately be unset on its paths
+        if is_field(l, 'type'):
+            lv = P.enum_value('iauth_xquery_type', 'LOGIN')
+            if isinstance(rr, dict) and rr.get('k') == 'enum' and op in ('==', '!='):
+                if rr['name'] == 'LOGIN':
+                    out.append(('tLOGIN', op == '=='))
+                elif op == '==':
+                    out.append(('tLOGIN', False))
+            elif op == '==' and isinstance(c, int):
+                out.append(('tLOGIN', c == lv))
+            elif op == 'in' and lv not in rr.get('vs', []):
+                out.append(('tLOGIN', False))
+            elif op == 'notin' and lv in rr.get('vs', []):
+                out.append(('tLOGIN', False))
+        return out
+
+    def kill(t):
+        if t.ev['k'] == 'store' and is_var(t.ev.get('lhs')) and t.ev['lhs'].get('t', '').startswith('struct iauth_xquery_service'):
+            return ('tLOGIN',)
+        return ()
+
+    def symbolic(rhs):
+        for f in USER_FIELDS:
+            if is_field(rhs, f, core.REQ_REC):
+                return ('fld', f)
+        if const_of(rhs) == 0 and rhs.get('castto'):
+            return ('null',)
+        return None
+
+    bufs = set()
+    for s in b.sites():
+        if s.ev['k'] == 'decl' and s.ev.get('array') and s.ev.get('t', '').startswith('char['):
+            bufs.add(s.ev['var'])
+
+    def value_of(e, consts):
+        """integer value of an index / offset expression under the known constants, honouring v++ already applied"""
+        c = const_of(e)
+        if isinstance(c, int):
+            return c
+        if is_var(e) and isinstance(consts.get(e['name']), int):
+            return consts[e['name']]
+        if isinstance(e, dict) and e.get('k') == 'un' and e.get('op') in ('++', '--') and is_var(e.get('e')) and isinstance(consts.get(e['e']['name']), int):
+            v = consts[e['e']['name']]
+            return (v - 1 if e['op'] == '++' else v + 1) if e.get('postfix') else v
+        return None
+
+    def step(extra, s, facts, consts):
+        d = dict(extra or ())
+        ev = s.ev
+        if ev['k'] == 'store' and (ev['lhs'] or {}).get('k') == 'idx' and is_var(ev['lhs']['base']) and ev['lhs']['base']['name'] in bufs and ev.get('op') == '=':
+            v = ev['lhs']['base']['name']
+            ix = value_of(ev['lhs']['index'], consts)
+            c = const_of(ev.get('rhs'))
+            if ix == 0 and c == 0:
+                d[v] = ()
+            elif ix == 0 and c == ord('~'):
+                d[v] = ('~',)
+            elif c == 0 and ix is not None and ix > 0:
+                pass            # the terminator
+            else:
+                d[v] = ('?',)
+        if ev['k'] == 'call' and ev.get('callee') in ('strncpy', 'strlcpy', 'memcpy', 'strcpy') and len(ev['args']) >= 2:
+            dst, src = ev['args'][0], ev['args'][1]
+            base, off = dst, 0
+            if isinstance(dst, dict) and dst.get('k') == 'bin' and dst.get('op') == '+':
+                base, off = dst['l'], value_of(dst['r'], consts)
+            if is_var(base) and base['name'] in bufs:
+                v = base['name']
+                piece = None
+                for f in USER_FIELDS:
+                    if is_field(src, f, core.REQ_REC):
+                        piece = f
+                if piece is None and is_var(src) and isinstance(consts.get(src['name']), tuple) and consts[src['name']][0] == 'fld':
+                    piece = consts[src['name']][1]
+                cur = d.get(v, ())
+                if piece is None or off is None or cur == ('?',) or len(cur) != off or (off > 0 and cur[:off] != ('~',) * off):
+                    d[v] = ('?',)
+                else:
+                    d[v] = tuple(cur[:off]) + ('ident' if piece == 'auth_username' else 'claimed',)
+        return tuple(sorted(d.items()))
+    def edge_hook(extra, facts, consts, r):
+        # `buf[0] == 0` / `!= 0` against what the buffer is known to hold
+        l, op, rr = r
+        if isinstance(l, dict) and l.get('k') == 'idx' and is_var(l['base']) and l['base']['name'] in bufs and const_of(l['index']) == 0 and const_of(rr) == 0 and op in ('==', '!='):
+            cont = dict(extra or ()).get(l['base']['name'])
+            if cont is not None and cont != ('?',):
+                empty = (cont == ())
+                if empty != (op == '=='):
+                    return False
+        return extra
+    before = rules.atom_forward(b, classify, kill, symbolic=symbolic, extra0=(), step=step, edge_hook=edge_hook)
+    out = {}
+    for s, args in sends:
+        for x in args:
+            if not (is_var(x) and x['name'] in bufs):
+                continue
+            bad = []
+            n = 0
+            for st in before.get(s.key, set()):
+                n += 1
+                f = rules.facts_of(st)
+                cont = dict(rules.extra_of(st) or ()).get(x['name'], ())
+                A, T, N = f.get('A'), f.get('T'), f.get('N')
+                if A is True:
+                    want = ('ident',)
+                elif A is False and T is True:
+                    want = ('claimed',)
+                elif A is False and T is False and N is True:
+                    want = ('~', 'claimed')
+                elif A is False and N is False:
+                    want = ()
+                else:
+                    want = None
+                if want is None or cont != want:
+                    bad.append('ident present=%s, claimed starts with ~=%s, claimed present=%s: buffer holds %s, expected %s' % (A, T, N, '+'.join(cont) or 'nothing', '+'.join(want) if want else ('nothing' if want == () else 'a decided case')))
+            out[(s.key, x['name'])] = (n > 0 and not bad, sorted(set(bad))[:2])
+    return out
+
+
 def formats(P, R, xq, b):
     def field_of(e):
         return e['field'] if isinstance(e, dict) and e.get('k') == 'mem' and e.get('rec') in (core.REQ_REC, 'iauth_xquery_client') else None
@@ -342,6 +513,7 @@ def formats(P, R, xq, b):
     want = {'CHECK %s %s %s %s :%s': ['nickname', '<user>', 'text_addr', '<host>', 'realname'],
             'LOGIN %s': ['password'], 'LOGIN2 %s %s %s %s': ['text_addr', '<host>', '<user>', 'password']}
     seen = set()
+    ucont = username_content(P, b, [(s, s.ev['args'][3:]) for s in b.calls() if xq in P.callees(s, False)])
     for s in b.calls():
         if xq not in P.callees(s, False):
             continue
@@ -353,8 +525,10 @@ def formats(P, R, xq, b):
         if ok:
             for w, x in zip(want[fmt], a[3:]):
                 if w == '<user>':
-                    good = is_var(x) and x.get('sc') == 'local' and x['name'] in locals_src and \
-                        all(field_of(src) in ('auth_username', 'cli_username') for _, src in locals_src[x['name']])
+                    uc = ucont.get((s.key, x['name'])) if is_var(x) else None
+                    good = bool(uc) and uc[0]
+                    if uc and not uc[0]:
+                        desc.append('[%s]' % '; '.join(uc[1]))
                 elif w == '<host>':
                     d = b.single_def(x['name']) if is_var(x) else None
                     v = d[1] if d else None
@@ -369,28 +543,7 @@ def formats(P, R, xq, b):
         okr = is_field(a[0], 'name') and is_var(a[1]) and any(rules.is_call(t, 'iauth_routing') and is_var(t.ev['args'][1], a[1]['name']) and is_var(t.ev['args'][0], b.params[0]) for t in b.calls())
         R.ob('C06.FMT.1', okr, s, 'the query goes to the slot\'s service with this request\'s routing tag', key='fmt-addr:%s' % (fmt or '?').split()[0])
     R.ob('C06.FMT.1', seen == set(want), b, 'the builder sends exactly the CHECK, LOGIN and LOGIN2 lines (found %s)' % sorted(x or '?' for x in seen), key='fmt:set')
-    # the user name buffer: ident first, else the claimed name marked ~
-    for v, lst in locals_src.items():
-        for s, src in lst:
-            gs = b.guards(s.bid)
-
-            def tst(field, idx, op, c):
-                return any(isinstance(g[0], dict) and g[0].get('k') == 'idx' and is_field(g[0]['base'], field) and const_of(g[0]['index']) == idx and g[1] == op and const_of(g[2]) == c for g in gs)
-            if field_of(src) == 'auth_username':
-                ok = tst('auth_username', 0, '!=', 0)
-                what = 'the ident is used when there is one'
-            else:
-                ok = tst('auth_username', 0, '==', 0)
-                off = s.ev['args'][0]
-                if off.get('k') == 'bin':
-                    marks = any(t.ev['k'] == 'store' and t.ev['lhs'].get('k') == 'idx' and is_var(t.ev['lhs']['base'], v) and const_of(t.ev['lhs']['index']) == 0 and const_of(t.ev.get('rhs')) == ord('~') for t in b.block_sites(s.bid))
-                    ok = ok and marks and tst('cli_username', 0, '!=', ord('~'))
-                    what = 'the claimed name is marked ~ when there is no ident'
-                else:
-                    ok = ok and tst('cli_username', 0, '==', ord('~'))
-                    what = 'an already marked claimed name is used as is when there is no ident'
-            R.ob('C06.FMT.1', ok, s, what, key='user:%s' % what[:24])
-    R.floor('C06.FMT.1', 9)
+    R.floor('C06.FMT.1', 6)
 
 
 SERVER_FIELDS = ('hostname', 'cli_username', 'auth_username', 'nickname', 'realname')
